@@ -368,6 +368,46 @@ func (m *Model) RunResponse(s *Sink, rule string) {
 	} else {
 		s.Violation(rule, "textwire.errorPage|debugMode from configuration", m.Pos(ep.Pos()), "the built-in error page does not receive debugMode from userConfig.DebugMode: message, path and line would be shown (or hidden) regardless of the setting")
 	}
+	// the debug setting is installed as given — on AND off: a store of the option under "the option is true" can switch
+	// debugging on but never off again, and the next failing response shows message, path and line
+	nDbg, badDbg := 0, ""
+	for _, fn := range m.ModFns {
+		if fn.Blocks == nil || isUserPkg(fnPkgPath(fn)) {
+			continue
+		}
+		for _, b := range fn.Blocks {
+			for _, in := range b.Instrs {
+				st, isSt := in.(*ssa.Store)
+				if !isSt {
+					continue
+				}
+				fa, isFA := st.Addr.(*ssa.FieldAddr)
+				if !isFA || fieldName(fa.X.Type(), fa.Field) != "DebugMode" || !strings.HasSuffix(derefTypeString(fa.X.Type()), "config.Config") {
+					continue
+				}
+				if _, fresh := fa.X.(*ssa.Alloc); fresh {
+					continue // filling in a new configuration value
+				}
+				nDbg++
+				if !strings.HasSuffix(fieldPathOf(st.Val), ".DebugMode") {
+					continue // a constant default etc.
+				}
+				for _, f := range expandFacts(factsAt(b)) {
+					if strings.HasSuffix(fieldPathOf(f.Cond), ".DebugMode") {
+						badDbg = m.InstrPos(st)
+					}
+				}
+			}
+		}
+	}
+	switch {
+	case nDbg == 0:
+		s.Undecided(rule, "configuration|the debug setting is installed as given", "-", "no store into a configuration's DebugMode found")
+	case badDbg != "":
+		s.Violation(rule, "configuration|the debug setting is installed as given", badDbg, "the debug setting is copied only when it has a particular value (store at %s under a test of the option itself): once switched on it cannot be switched off through Configure / NewTemplate, and a failing response keeps showing the error message, the path and the line", badDbg)
+	default:
+		s.OK(rule, "configuration|the debug setting is installed as given", "-", "DebugMode is copied from the given configuration unconditionally (%d stores)", nDbg)
+	}
 	m.checkErrorPageTemplate(s, rule)
 }
 
